@@ -155,6 +155,10 @@ def make_pps(pp: dict) -> list:
         out.append(TrimTrailingWhitespace())
     if pp.get("max_empty") is not None:
         out.append(LimitEmptyLines(pp["max_empty"]))
+    if pp.get("prog"):
+        from nunavut._postprocessors import ExternalProgramEditInPlace
+
+        out.append(ExternalProgramEditInPlace(["fakefmt"]))  # (runs the simulator's in-process fake formatter)
     return out
 
 
@@ -179,7 +183,7 @@ def api_generate(cx: Ctx, op: dict, out_dir: str) -> typing.Dict[str, str]:
 
     root_dir = os.path.join(cx.world.in_dir, op["root"])
     lookups = [os.path.join(cx.world.in_dir, x) for x in op.get("lookups", [])]
-    gkey = repr(sorted((k, str(v)) for k, v in op.items() if k not in ("reuse", "abort_at", "abort_style", "abort_file", "abort_write", "order_seed", "omit_ser")))
+    gkey = repr(sorted((k, str(v)) for k, v in op.items() if k not in ("reuse", "abort_at", "abort_style", "abort_file", "abort_write", "order_seed", "omit_ser", "audit")))
     if op.get("reuse") and gkey in cx.generators:
         ns, gen, sgen = cx.generators[gkey]
     else:
@@ -214,8 +218,8 @@ def api_generate(cx: Ctx, op: dict, out_dir: str) -> typing.Dict[str, str]:
         cx.generators[gkey] = (ns, gen, sgen)
     _ORDER["seed"] = op.get("order_seed")
     try:
-        sgen.generate_all(False, True, bool(op.get("omit_ser")), False)
-        gen.generate_all(False, True, bool(op.get("omit_ser")), False)
+        sgen.generate_all(False, True, bool(op.get("omit_ser")), bool(op.get("audit")))
+        gen.generate_all(False, True, bool(op.get("omit_ser")), bool(op.get("audit")))
         return {type_key(t): str(p) for t, p in ns.get_all_datatypes()}
     finally:
         _ORDER["seed"] = None
@@ -252,6 +256,10 @@ def cli_generate(cx: Ctx, op: dict, out_dir: str, scratch_in: str) -> typing.Dic
         o["ns_types"] = True
     if op.get("omit_ser"):
         o["omit_ser"] = True
+    if op.get("audit"):
+        o["auditing"] = True
+    if pp.get("prog"):
+        o["pp_prog"] = True
     if op.get("trim_blocks"):
         o["trim_blocks"] = True
     if op.get("lstrip_blocks"):
@@ -412,6 +420,10 @@ def run_case(case: dict, ctx: dict) -> dict:
                     t.pop("subset_pick", None)
                 if ro.chance(1, 8):
                     t["omit_ser"] = True
+                if ro.chance(1, 8):
+                    t["audit"] = True  # embed_auditing_info for this call only (a per-call parameter)
+                if ro.chance(1, 8):
+                    t["pp"] = dict(t.get("pp") or {}, prog=True)  # an external program edits every generated file
                 if ro.chance(1, 3) and i > 0:
                     # generate_all() again on the generator object of the previous invocation, possibly with another
                     # omit_serialization_support argument (a per-call parameter of the same object)
@@ -421,6 +433,8 @@ def run_case(case: dict, ctx: dict) -> dict:
                     t["entry"] = "api"
                     if ro.chance(1, 2):
                         t["omit_ser"] = not prev_t.get("omit_ser", False)
+                    if ro.chance(1, 3):
+                        t["audit"] = not prev_t.get("audit", False)
                 templates.append(t)
         root0 = max(roots, key=lambda x: (len(types_by_root[x]), x))
         for i, t in enumerate(templates):
@@ -473,7 +487,7 @@ def run_case(case: dict, ctx: dict) -> dict:
     evaluations = 0
 
     def ref_key(op: dict) -> str:
-        return repr((op["root"], op["lang"], op.get("templates"), sorted((op.get("pp") or {}).items()), bool(op.get("ns_types")), bool(op.get("omit_ser")), op.get("support_ns"), bool(op.get("variant")), bool(op.get("trim_blocks")), bool(op.get("lstrip_blocks")), repr(op.get("reserved"))))
+        return repr((op["root"], op["lang"], op.get("templates"), sorted((op.get("pp") or {}).items()), bool(op.get("ns_types")), bool(op.get("omit_ser")), op.get("support_ns"), bool(op.get("variant")), bool(op.get("trim_blocks")), bool(op.get("lstrip_blocks")), repr(op.get("reserved")), bool(op.get("audit"))))
 
     def reference(op: dict) -> typing.Optional[typing.Dict[str, bytes]]:
         nonlocal evaluations
@@ -482,13 +496,13 @@ def run_case(case: dict, ctx: dict) -> dict:
             return ref_cache[k]
         out_dir = os.path.join(sandbox, "ref-out")
         nnvg._force_rmtree(out_dir)  # pylint: disable=protected-access
-        clean = {kk: vv for kk, vv in op.items() if kk in ("root", "lookups", "lang", "templates", "pp", "ns_types", "omit_ser", "support_ns", "trim_blocks", "lstrip_blocks", "reserved")}
+        clean = {kk: vv for kk, vv in op.items() if kk in ("root", "lookups", "lang", "templates", "pp", "ns_types", "omit_ser", "support_ns", "trim_blocks", "lstrip_blocks", "reserved", "audit")}
         use_variant = bool(op.get("variant")) and variant_files is not None
 
         def child() -> typing.Any:
             if use_variant:
                 swap_inputs(True)
-            s = Seams({"sandbox": sandbox, "clock": dict(nnvg.FROZEN_CLOCK), "sort_enum": True})
+            s = Seams({"sandbox": sandbox, "clock": dict(nnvg.FROZEN_CLOCK), "sort_enum": True, "extprog": "ok"})
             s.install()
             install_order_seam()
             try:
@@ -518,7 +532,7 @@ def run_case(case: dict, ctx: dict) -> dict:
         reference(op)
 
     # ---- the history, in *this* interpreter
-    seams = Seams({"sandbox": sandbox, "clock": dict(nnvg.FROZEN_CLOCK), "sort_enum": True})
+    seams = Seams({"sandbox": sandbox, "clock": dict(nnvg.FROZEN_CLOCK), "sort_enum": True, "extprog": "ok"})
     seams.install()
     install_order_seam()
     cx = Ctx(world, roots, files)
@@ -536,8 +550,8 @@ def run_case(case: dict, ctx: dict) -> dict:
             continue
         out_dir = os.path.join(sandbox, "out", "%d" % i)
         if op.get("reuse"):
-            gkey = repr(sorted((k, str(v)) for k, v in op.items() if k not in ("reuse", "abort_at", "abort_style", "abort_file", "abort_write", "order_seed", "omit_ser")))
-            prev = [j for j in range(i) if repr(sorted((k, str(v)) for k, v in ops[j].items() if k not in ("reuse", "abort_at", "abort_style", "abort_file", "abort_write", "order_seed", "omit_ser"))) == gkey and ops[j].get("entry", "api") == "api"]
+            gkey = repr(sorted((k, str(v)) for k, v in op.items() if k not in ("reuse", "abort_at", "abort_style", "abort_file", "abort_write", "order_seed", "omit_ser", "audit")))
+            prev = [j for j in range(i) if repr(sorted((k, str(v)) for k, v in ops[j].items() if k not in ("reuse", "abort_at", "abort_style", "abort_file", "abort_write", "order_seed", "omit_ser", "audit"))) == gkey and ops[j].get("entry", "api") == "api"]
             if prev and op.get("entry", "api") == "api":
                 out_dir = os.path.join(sandbox, "out", "%d" % prev[-1])
                 bump("probes", "generator_object_reused")
@@ -579,7 +593,7 @@ def run_case(case: dict, ctx: dict) -> dict:
                 swap_inputs(False)
                 seams.enabled = True
         evaluations += 1
-        desc = "%s|%s|%s|%s|sub=%s|ord=%s|reuse=%s|abort=%s|sns=%s|var=%s|ws=%s%s|shared=%s|res=%s" % (op.get("entry"), op["lang"], op.get("templates"), sorted((op.get("pp") or {}).items()), "all" if op.get("subset") is None else len(op["subset"]), op.get("order_seed") is not None, bool(op.get("reuse")), (op.get("abort_style") or "call") if op.get("abort_at") is not None else None, op.get("support_ns"), bool(op.get("variant")), int(bool(op.get("trim_blocks"))), int(bool(op.get("lstrip_blocks"))), bool(op.get("share_lctx")), bool(op.get("reserved")))
+        desc = "%s|%s|%s|%s|sub=%s|ord=%s|reuse=%s|abort=%s|sns=%s|var=%s|ws=%s%s|shared=%s|res=%s|aud=%s" % (op.get("entry"), op["lang"], op.get("templates"), sorted((op.get("pp") or {}).items()), "all" if op.get("subset") is None else len(op["subset"]), op.get("order_seed") is not None, bool(op.get("reuse")), (op.get("abort_style") or "call") if op.get("abort_at") is not None else None, op.get("support_ns"), bool(op.get("variant")), int(bool(op.get("trim_blocks"))), int(bool(op.get("lstrip_blocks"))), bool(op.get("share_lctx")), bool(op.get("reserved")), bool(op.get("audit")))
         trace.append(desc)
         if aborted:
             continue
@@ -646,7 +660,7 @@ def reductions(case: dict) -> typing.Iterator[dict]:
             c["ops"] = ops[:i] + ops[i + 1 :]
             yield c
     for i, op in enumerate(ops):
-        for k, neutral in (("abort_at", None), ("variant", None), ("support_ns", None), ("share_lctx", None), ("trim_blocks", None), ("lstrip_blocks", None), ("reserved", None), ("order_seed", None), ("reuse", None), ("subset", None), ("entry", "api"), ("omit_ser", None), ("pp", {}), ("templates", None)):
+        for k, neutral in (("abort_at", None), ("variant", None), ("support_ns", None), ("share_lctx", None), ("trim_blocks", None), ("lstrip_blocks", None), ("reserved", None), ("audit", None), ("order_seed", None), ("reuse", None), ("subset", None), ("entry", "api"), ("omit_ser", None), ("pp", {}), ("templates", None)):
             if op.get(k) not in (neutral, None):
                 c = dict(case)
                 c["ops"] = [dict(o) for o in ops]
